@@ -110,6 +110,11 @@ def gen(rng, tier):
     for _ in range(n // 3):
         a = gen_doc(rng)
         cases.append({"kind": "plist", "f": no_null(a), "t": no_null(mutate(rng, a)), "opts": {}, "wrap": rng.choice(["both", "from"])})
+    # plists whose root mapping (or a one-element root array holding it) has exactly one renamed key with a changed value
+    for f, t in (({"name": "some value"}, {"nome": "some other text"}), ([{"k1": "abcdef", "z": 1}], [{"k2": "abcxyz", "z": 1}]),
+                 ({"a": [1, 2, 3], "n": 1}, {"b": [1, 2, 4, 5], "n": 1}), ({"title": "release notes"}, {"titel": "release notes for version 2"})):
+        for wrap in ("both", "from"):
+            cases.append({"kind": "plist", "f": f, "t": t, "opts": {}, "wrap": wrap})
     cases += [
         {"kind": "xml", "f": {"tag": "a", "attrib": {}, "text": "x", "children": []}, "t": {"tag": "a", "attrib": {}, "text": None, "children": []}, "opts": {}},
         {"kind": "xml", "f": {"tag": "a", "attrib": {}, "text": " x ", "children": []}, "t": {"tag": "a", "attrib": {}, "text": "x", "children": []}, "opts": {}},
@@ -361,6 +366,9 @@ def monitor(case, obs):
     raw = []
     _walk(obs["script"], raw)
     root = obs["script"][3]
+    if not isinstance(root, int) and obs.get("edited_cost") != obs.get("flat_sum") and not _has_dup_mset(obs["script"]):
+        # the root edit never became a single value; the other two views must still agree with each other
+        raw.append(("C03", "three-views:annotated-vs-flat", f"annotated tree {obs['edited_cost']}, flat list {obs['flat_sum']} (root edit reports {root})"))
     if isinstance(root, int):
         if not (obs["edited_cost"] == obs["flat_sum"] == root):
             raw.append(("C03", "three-views" + (":duplicates" if _has_dup_mset(obs["script"]) else ""),
